@@ -14,10 +14,10 @@ CONSTANTS
   Deltas <- D3
   OtherKinds <- NoOther
   Strict = TRUE
-  ExK = 1
+  ExK = 8
   D = 1
 INIT Init
 NEXT NextR
 VIEW viewMC
-ACTION_CONSTRAINT ExportT
+ACTION_CONSTRAINT ExportS
 CHECK_DEADLOCK FALSE
